@@ -274,6 +274,28 @@ func propC08(c *ctx) error {
 			})
 		}
 	}
+	// :define elements with every kind of (near-)empty body: registering a fragment trims blank text at both ends of the
+	// content — of nothing, of one blank node, of blank nodes only
+	for _, body := range []string{"", " ", "\n", "\n\n", " \n\t ", "<!-- c -->", " <!-- c --> ", "<!--/* h */-->", " <!--/* h */--> ", "x", " x ", "<b></b>", " <b></b> ", "\t", " <![CDATA[ ]]> ", "\u00a0", "\u3000", " \n<i>a</i>\n <i>b</i>\n "} {
+		for _, el := range []string{"template", "div", "t:block", "p"} {
+			for _, use := range []string{`<q :insert="stub">o</q>`, `<q :replace="stub">o</q>`, ""} {
+				tplSrc := "<" + el + ` :define="stub">` + body + "</" + el + ">" + use
+				res.eval("defbody|"+tplSrc, true, J{"src": tplSrc})
+				res.count("define_bodies")
+				guard("Add+Execute (fragment with a near-empty body)", tplSrc, func() {
+					m, err, _ := implLoadNoRecover([][2]string{{"t", tplSrc}})
+					if err == nil {
+						for _, name := range []string{"t", "stub"} {
+							if t, gerr := m.tm.GetTemplate(name); gerr == nil {
+								var sb strings.Builder
+								t.Execute(&sb, map[string]any{"a": 1})
+							}
+						}
+					}
+				})
+			}
+		}
+	}
 	// malformed VALUES of the directives that have a syntax of their own (with / range / remove / define / insert): every
 	// combination of complete and dangling pieces loads or fails to load, and renders or fails to render — no panic
 	{
